@@ -290,6 +290,7 @@ func c02One(c *Ctx, b *Batch, pkg string, cs respCase, respType string, schema *
 
 type faithWalker struct {
 	typesOnly bool // C19: only check that abstract values hold a struct of a possible type named by the input
+	noStructOpt bool // no `struct:` option occurs anywhere in the program: every abstract position must be dispatched on __typename
 	decls    *goDecls
 	ex       *executor
 	schema   *ast.Schema
@@ -483,6 +484,20 @@ func (w *faithWalker) value(t *ast.Type, sub ast.SelectionSet, x any, d dumpNode
 		rt := def
 		if def.Kind != ast.Object {
 			tn, _ := xo["__typename"].(string)
+			if tn == "" {
+				tn = lastFoldMatch(xo, "__typename") // encoding/json matches keys case-insensitively
+			}
+			if w.noStructOpt && st != nil {
+				// a value was produced for an abstract position: the input's __typename must name one of its possible types
+				okType := false
+				for _, po := range w.ex.possibleObjects(def) {
+					okType = okType || po.Name == tn
+				}
+				if !okType {
+					w.bad("abstract-value-mistyped", fmt.Sprintf("%s: input has __typename %q (missing or not a possible type of %s), yet a value of Go type %v %s was decoded instead of an error", path, tn, def.Name, d["t"], dyn))
+					return
+				}
+			}
 			rt = w.schema.Types[tn]
 			if rt == nil {
 				return
